@@ -423,6 +423,11 @@ func (p *Parser) parseStmt(allowDeclaration bool) (stmt IStmt) {
 			}
 			stmt = &ForInStmt{init, value, body}
 		} else if isLHSExpr && p.tt == OfToken {
+			if v, ok := init.(*Var); ok && !await && string(v.Data) == "async" {
+				// for (async of ...) is excluded by the grammar (also across a line break): the printed form would be read as the start of an async arrow function
+				p.fail("for statement")
+				return
+			}
 			p.next()
 			value := p.parseExpression(OpAssign)
 			if !p.consume("for statement", CloseParenToken) {
